@@ -2,17 +2,18 @@
 # usage: tools/matrix.sh "<check ids>" [seed dirs...]  – every seeded change x every listed check (quick); prints one line per pair
 cd "$(dirname "$0")/.."
 CHECKS="$1"; shift
+REPO="${VERIF_REPO:-/repo}"; OUT="${RUNALL_OUT:-/tmp}"; mkdir -p "$OUT"
 SEEDS="$@"; [ -z "$SEEDS" ] && SEEDS=$(ls -d seeded/*/)
 for s in $SEEDS; do
   name=$(basename $s)
-  git -C /repo diff --quiet || { echo "/repo dirty"; exit 2; }
-  git -C /repo apply "$(pwd)/$s/patch.diff" 2>/dev/null || { echo "$name: patch does not apply"; continue; }
+  git -C "$REPO" diff --quiet || { echo "/repo dirty"; exit 2; }
+  git -C "$REPO" apply "$(pwd)/$s/patch.diff" 2>/dev/null || { echo "$name: patch does not apply"; continue; }
   for id in $CHECKS; do
-    cp evidence/$id.json /tmp/ev-$id.bak 2>/dev/null
-    ./check $id quick > /tmp/matrix-$name-$id.log 2>&1; rc=$?
-    cp /tmp/ev-$id.bak evidence/$id.json 2>/dev/null
-    sigs=$(grep -a "^  sig=" /tmp/matrix-$name-$id.log | head -3 | cut -c1-90 | tr '\n' ';')
+    cp evidence/$id.json $OUT/ev-$id.bak 2>/dev/null
+    ./check $id quick > $OUT/matrix-$name-$id.log 2>&1; rc=$?
+    cp $OUT/ev-$id.bak evidence/$id.json 2>/dev/null
+    sigs=$(grep -a "^  sig=" $OUT/matrix-$name-$id.log | head -3 | cut -c1-90 | tr '\n' ';')
     echo "$name x $id: rc=$rc $sigs"
   done
-  git -C /repo checkout -- . ; git -C /repo clean -fdq
+  git -C "$REPO" checkout -- . ; git -C "$REPO" clean -fdq
 done
